@@ -32,16 +32,18 @@ pub fn sub_call_or_assignment_p() -> impl Parser<StringView, Output = Statement,
                     err_supplier(|| ParserError::expected("=").to_fatal()).boxed()
                 } else {
                     // it's a sub call
-                    let (bare_name, opt_args) = expr_to_bare_name_args(name_expr);
-                    match opt_args {
-                        Some(args) => {
+                    match expr_to_bare_name_args(name_expr) {
+                        Some((bare_name, Some(args))) => {
                             supplier(move || Statement::sub_call(bare_name.clone(), args.clone()))
                                 .boxed()
                         }
-                        _ => csv_expressions_first_guarded()
+                        Some((bare_name, _)) => csv_expressions_first_guarded()
                             .or_default()
                             .map(move |args| Statement::sub_call(bare_name.clone(), args))
                             .boxed(),
+                        // a member of an array element or of a function result, e.g. A(1).B,
+                        // is not a sub name: it can only be assigned to
+                        None => err_supplier(|| ParserError::expected("=").to_fatal()).boxed(),
                     }
                 }
             })
@@ -60,30 +62,32 @@ fn name_and_opt_eq_sign()
 /// Converts a name expression into a sub bare name and optionally sub arguments.
 /// Sub arguments are only present for `Expression:FunctionCall` (i.e. when
 /// the sub already has parenthesis). For other cases arguments are resolved later.
-fn expr_to_bare_name_args(name_expr: Expression) -> (BareName, Option<Expressions>) {
+/// Returns `None` if the expression cannot be the name of a sub.
+fn expr_to_bare_name_args(name_expr: Expression) -> Option<(BareName, Option<Expressions>)> {
     match name_expr {
         // A(1,2) or A$(1,2)
         Expression::FunctionCall(name, args) => {
             // this one is easy, convert it to a sub
-            (name.demand_bare(), Some(args))
+            Some((name.demand_bare(), Some(args)))
         }
         // A or A$ (might have arguments after space)
-        Expression::Variable(name, _) => (name.demand_bare(), None),
+        Expression::Variable(name, _) => Some((name.demand_bare(), None)),
         // only possible if A.B is a sub, if left_name_expr contains a Function, abort
-        Expression::Property(_, _, _) => (fold_to_bare_name(name_expr), None),
-        _ => panic!("Unexpected name expression"),
+        Expression::Property(_, _, _) => fold_to_bare_name(name_expr).map(|name| (name, None)),
+        _ => None,
     }
 }
 
-fn fold_to_bare_name(expr: Expression) -> BareName {
+fn fold_to_bare_name(expr: Expression) -> Option<BareName> {
     match expr {
-        Expression::Variable(name, _) => name.demand_bare(),
+        Expression::Variable(name, _) => Some(name.demand_bare()),
         Expression::Property(boxed_left_side, name, _) => {
-            let left_side_name = fold_to_bare_name(*boxed_left_side);
+            let left_side_name = fold_to_bare_name(*boxed_left_side)?;
             let bare_name = name.demand_bare();
-            Name::dot_concat(left_side_name, bare_name)
+            Some(Name::dot_concat(left_side_name, bare_name))
         }
-        _ => panic!("Illegal sub name {:?}", expr),
+        // e.g. A(1).B
+        _ => None,
     }
 }
 
